@@ -303,8 +303,16 @@ macro_rules! base_ops {
                             Ok(back) => {
                                 let back: $t = back;
                                 // a copy of the view (what a handler moves into a task) shows the same value
+                                // (the copy is only read through once its root is known to sit at the same
+                                // offset of its own buffer: a misplaced root of a type with pointers reads
+                                // outside the buffer, which no_panic cannot catch)
                                 let copy = view.clone();
+                                let off = |dv: &DataView<$t>| {
+                                    (&**dv as *const <$t as Archive>::Archived as *const u8 as usize)
+                                        .wrapping_sub(dv.as_bytes().as_ptr() as usize)
+                                };
                                 let copy_same = copy.as_bytes() == view.as_bytes()
+                                    && off(&copy) == off(&view)
                                     && copy.deserialize_view().map(|c: $t| c == v).unwrap_or(false);
                                 back == v
                                     && copy_same
